@@ -188,8 +188,10 @@ def binding_cases(rng, tier, broken):
     others = [o for o in tc.OPS if o not in BINDING_CORE_OPS]
     pairs = list(itertools.product(tc.CORE, repeat=2))
     for form in forms:
-        for stale in (False, True):
+        for stale in (False, True, "same"):
             for ca, cb in pairs:
+                if stale == "same" and not (ca in ("tuple", "list") or cb in ("tuple", "list")):
+                    continue        # another int / float / str of the same class has the same static type
                 # quick (~11k programs): the four core operators (+ two random others for a fresh binding);
                 # thorough (~75k): every operator.  A broken correspondence does not widen this stream: it is about
                 # the binding forms, the operator table has its own widening below.
